@@ -499,6 +499,7 @@ def _interval_functions():
         "get_pileup": lambda t, S: A.get_pileup(t, S),
         "get_boolean_mask": lambda t, S: A.get_boolean_mask(t, S),
         "clip": lambda t, S: I.clip(t, S - 2),
+        "clip/clipping": lambda t, S: I.clip(t, 3),      # table shifted by -2 (see build_interval): both ends get clipped
         "pileup": lambda t, S: I.pileup(t),
     }
     stranded = {"extend_to_size": lambda t, S: I.extend_to_size(t, 3, S)}
@@ -512,7 +513,8 @@ def _interval_functions():
 
 def build_interval(fn_name, d):
     one, stranded, two = _interval_functions()
-    t = _interval_table(d["ivs"], d["type"])
+    ivs = d["ivs"] if fn_name != "clip/clipping" else [[a - 2, b - 1] for a, b in d["ivs"]]
+    t = _interval_table(ivs, d["type"])
     S = d["size"]
     if fn_name in two:
         o = _interval_table(d["other"], "Interval")
@@ -539,9 +541,9 @@ def cases_interval(tier, rng):
             if typ == "Bed6":
                 for name in stranded:
                     yield name, {"ivs": ivs, "type": typ, "size": P + 2}
-        if full or len(ivs) < 2:
+        if full or len(ivs) < 3:
             for name in two:
-                for o in INTERVAL_OTHERS:
+                for o in (INTERVAL_OTHERS if (full or len(ivs) < 2) else INTERVAL_OTHERS[:1]):
                     yield name, {"ivs": ivs, "type": "Interval", "other": o, "size": P + 2}
     for name in ("merge_intervals/d0", "merge_intervals/d1", "get_pileup", "get_boolean_mask"):
         yield name, {"ivs": [], "type": "Interval", "size": P + 2}
@@ -1079,6 +1081,17 @@ def _eval_chunk(col, env, scenario, case, sig):
                 got = read_snap(R, p)
                 col.check(got == env.V0[p], sig("reread-differs-after-field-access"), case,
                           "field %s parsed again after %r: %s" % (p, order, first_diff(env.V0[p], got)))
+            for p in order:
+                if "." in p:               # nested lazy table (VCF info): parse the sub-field again from the SAME nested buffer
+                    parent, leaf = p.rsplit(".", 1)
+                    try:
+                        nested = read_field(B, parent)
+                    except Exception:
+                        continue
+                    if hasattr(nested, "_itemgetter"):
+                        got = read_snap(bnp.replace(nested), leaf)
+                        col.check(got == env.V0[p], sig("reread-differs-after-field-access"), case,
+                                  "nested field %s parsed again after %r: %s" % (p, order, first_diff(env.V0[p], got)))
         _check_unchanged(col, env, B, p0, case, sig, "field-access")
     elif kind == "write-twice":
         for _ in range(2):
@@ -1144,6 +1157,11 @@ def _eval_chunk(col, env, scenario, case, sig):
         if env.lazy:
             got = read_snap(bnp.replace(B), p)
             col.check(got == env.V0[p], sig("reread-differs-after-function-on-field-value"), case, "field %s: %s" % (p, first_diff(env.V0[p], got)))
+    elif kind == "write-eager":
+        # the fully parsed (eager) table of the chunk is the argument of the writer
+        T = B.get_data_object() if env.lazy else B
+        _frame(col, "chunk:%s:write-eager-table" % fmt, "", case, env.write, (T,), [T], tolerate_exception=True)
+        _check_unchanged(col, env, B, p0, case, sig, "writing-the-parsed-table")
     elif kind == "table-fn":
         fn = _table_functions_for_chunk(env)[scenario[1]]
         r1 = snap(fn(B))
@@ -1191,6 +1209,7 @@ def chunk_scenarios(env, tier, full_file):
         for i in range(len(P)):            # every field once as the first and once as the second of a pair
             yield ["fields", [P[i], P[(i + 1) % len(P)]]] + cheap
     yield ["write-twice"]
+    yield ["write-eager"]
     n = env.n_entries
     idxs = [["slice", 1, None, None], ["slice", None, None, -1], ["mask", [i % 2 == 1 for i in range(n)]], ["slice", None, -1, None],
             ["slice", None, None, 2], ["list", [n - 1, 0]], ["slice", 0, 1, None]]
